@@ -221,6 +221,7 @@ func cmdVC(args []string) int {
 			os.WriteFile("/tmp/gvc_dump.smt2", []byte(o.exec.query(o, true)), 0o644)
 			os.WriteFile("/tmp/gvc_dump_sliced.smt2", []byte(o.exec.slicedQuery(o, 2, true)), 0o644)
 			os.WriteFile("/tmp/gvc_dump_sliced_plain.smt2", []byte(o.exec.slicedQuery(o, 2, false)), 0o644)
+			os.WriteFile("/tmp/gvc_dump_sliced_plain2.smt2", []byte(o.exec.slicedQuery(o, 2, false, 2)), 0o644)
 			os.WriteFile("/tmp/gvc_dump_slice4_plain.smt2", []byte(o.exec.slicedQuery(o, 4, false)), 0o644)
 			os.WriteFile("/tmp/gvc_dump_sliceinf_plain.smt2", []byte(o.exec.slicedQuery(o, -1, false)), 0o644)
 			fmt.Println("           query written to /tmp/gvc_dump.smt2")
